@@ -83,6 +83,7 @@ def run(report, tier, seed):
         _emission(report, sc, ybin, lean, rng, quick, seed)
         _float_division(report, sc, ybin)
         _narrow_operands(report, sc, ybin)
+        _wide_operands(report, sc, ybin, lean, seed)
         lean.close()
 
 
@@ -459,6 +460,105 @@ def _narrow_operands(report, sc, ybin):
         if g != want:
             report.violation("emission:value-differs:python:narrow-operands", {"source": computed[n], "field": n, "reference": want, "got": g},
                              "int32-typed arithmetic on narrow operands does not yield the mathematical value in Python")
+
+
+WIDE_TYPES = {"int64": (-2**63, 2**63 - 1), "uint64": (0, 2**64 - 1), "size": (0, 2**64 - 1), "int32": (-2**31, 2**31 - 1), "uint32": (0, 2**32 - 1)}
+WIDE_ENVS = {
+    "int64": [(2**62, 2**61, 3), (9007199254740993, 1, 1), (2**63 - 1, 1, 7), (2**53 + 1, 3, 2), (-(2**62), 2**10, 4), (1234567890123456789, 1000000007, 10), (2**63 - 2, 2**62, 2)],
+    "uint64": [(2**64 - 1, 1, 1), (2**63 + 5, 2**62, 2), (2**53 + 1, 3, 1), (18446744073709551557, 7, 3), (2**64 - 2, 2**63, 2), (9007199254740993, 1, 1)],
+    "size": [(2**64 - 1, 1, 1), (2**63 + 5, 2**62, 2), (9007199254740993, 1, 1), (2**64 - 3, 11, 5)],
+    "int32": [(2**31 - 1, 1, 2), (-(2**31), 2**30, 2), (2**31 - 2, 2**30, 3)],
+    "uint32": [(2**32 - 1, 3, 1), (2**31 + 5, 2**30, 2), (4294967291, 7, 5)],
+}
+V = lambda i: ["var", i]
+B = lambda op, l, r: ["bin", op, l, r]
+WIDE_EXPRS = {"add": B("add", V(0), V(1)), "sub": B("sub", V(0), V(1)), "mul": B("mul", V(1), V(2)), "div": B("div", V(0), V(1)), "divz": B("div", V(0), V(2)),
+              "avg": B("div", B("add", V(0), V(1)), V(2)), "ceil": B("div", B("sub", B("add", V(0), V(1)), V(2)), V(1)), "mix": B("add", B("mul", B("div", V(0), V(1)), V(1)), V(2)),
+              "half": B("sub", V(0), B("div", V(0), V(2)))}
+
+
+def _exact(e, env, lo, hi):
+    """exact value with C semantics of `/` (truncation); None when an operand, an intermediate or the result leaves [lo, hi], when a division is by
+    zero, or when a negative operand meets an inexact division (the open finding about Python's floor division)"""
+    if e[0] == "var":
+        return env[e[1]]
+    a, b = _exact(e[2], env, lo, hi), _exact(e[3], env, lo, hi)
+    if a is None or b is None:
+        return None
+    if e[1] == "div":
+        if b == 0 or ((a < 0 or b < 0) and a % b != 0):
+            return None
+        v = abs(a) // abs(b) * (1 if (a < 0) == (b < 0) else -1)
+    else:
+        v = {"add": a + b, "sub": a - b, "mul": a * b}[e[1]]
+    return v if lo <= v <= hi else None
+
+
+def _wide_operands(report, sc, ybin, lean, seed):
+    """+, -, *, / on 64-bit (and full-range 32-bit) operands: whenever operands, intermediates and result are in the range of the type, every
+    target yields the exact integer (a detour through a double loses the low bits above 2**53)"""
+    from formatting_shim import to_pascal
+    for T, (lo, hi) in WIDE_TYPES.items():
+        fields = [("x", T), ("y", T), ("z", T)]
+        computed = {n: _src(e)[1:-1] if _src(e).startswith("(") else _src(e) for n, e in WIDE_EXPRS.items()}
+        computed = {n: c.replace("a", "x").replace("b", "y").replace("c", "z") for n, c in computed.items()}
+        d = _pkg(sc, "wide-" + T, fields, computed, cpp=True)
+        rc, out, err = vlib.yardl(ybin, d, "generate")
+        if rc != 0:
+            report.violation("emission:model-rejected", {"error": err[-800:], "type": T}, "")
+            continue
+        root = os.path.dirname(d)
+        envs = WIDE_ENVS[T]
+        want = {}
+        for n, e in WIDE_EXPRS.items():
+            for env in envs:
+                v = _exact(e, env, lo, hi)
+                if v is not None:
+                    r = lean.ask({"op": "eval", "expr": e, "env": list(env)})
+                    if r.get("value") != v:
+                        report.violation("model:eval", {"theorem_or_correspondence": "Expr.eval vs exact arithmetic", "expr": e, "env": env, "model": r, "exact": v}, "no-failing-input-found")
+                    want[(n, env)] = v
+        # Python
+        script = ("import sys, json\nimport numpy as np\nsys.path.insert(0, %r)\nimport cf\nres = {}\n"
+                  "for env in %r:\n    r = cf.R(x=env[0], y=env[1], z=env[2])\n"
+                  "    for n in %r:\n        try:\n            res[n + '|' + ','.join(map(str, env))] = str(int(getattr(r, n)()))\n"
+                  "        except Exception as e:\n            res[n + '|' + ','.join(map(str, env))] = 'EXC ' + type(e).__name__\n"
+                  "print(json.dumps(res))\n") % (os.path.join(root, "py"), [list(e) for e in envs], list(WIDE_EXPRS))
+        p = subprocess.run(["python3-vt", "-W", "ignore", "-c", script], stdout=subprocess.PIPE, stderr=subprocess.PIPE, timeout=120)
+        pyvals = json.loads(p.stdout) if p.returncode == 0 else None
+        if pyvals is None:
+            report.violation("emission:python-wide-run-failed", {"stderr": p.stderr.decode()[-1200:], "type": T}, "")
+        # C++
+        main = ['#include <iostream>', '#include "types.h"', "int main() {", "  std::cout << std::unitbuf;"]
+        for env in envs:
+            ctype = {"int64": "int64_t", "uint64": "uint64_t", "size": "uint64_t", "int32": "int32_t", "uint32": "uint32_t"}[T]
+            lit = lambda v: f"static_cast<{ctype}>({v}{'ULL' if v >= 0 else 'LL'})" if v > -(2**63) else f"static_cast<{ctype}>(-9223372036854775807LL - 1)"
+            main.append("  { cf::R r; r.x = %s; r.y = %s; r.z = %s;" % tuple(lit(v) for v in env))
+            for n in WIDE_EXPRS:
+                if (n, env) in want:
+                    main.append('    std::cout << "%s|%s=" << +r.%s() << "\\n";' % (n, ",".join(map(str, env)), to_pascal(n)))
+            main.append("  }")
+        main.append("}")
+        cppdir = os.path.join(root, "cpp")
+        open(os.path.join(cppdir, "cf_main.cc"), "w").write("\n".join(main))
+        exe = os.path.join(root, "cfmain")
+        cp = vlib.run(["g++", "-std=c++17", "-O0", "-w", "-I", os.path.join(vlib.HARNESS, "cpp"), "-I", cppdir, os.path.join(cppdir, "cf_main.cc"),
+                       os.path.join(cppdir, "types.cc"), "-o", exe], timeout=600)
+        cppvals = None
+        if cp.returncode == 0:
+            cppvals = dict(line.split("=") for line in subprocess.run([exe], stdout=subprocess.PIPE, timeout=60).stdout.decode().splitlines() if "=" in line)
+        else:
+            report.violation("emission:cpp-wide-compile-failed", {"type": T, "log": (cp.stderr or b"").decode(errors="replace")[-1500:] if hasattr(cp, "stderr") else ""}, "")
+        for (n, env), v in want.items():
+            k = n + "|" + ",".join(map(str, env))
+            for tgt, vals in (("python", pyvals), ("cpp", cppvals)):
+                if vals is None:
+                    continue
+                report.case(distinct_key=("wide", T, n, env, tgt), sample={"type": T, "source": computed[n], "env": env, "value": v, "target": tgt} if n == "div" and env == envs[0] else None)
+                report.count(f"emission.wide.{tgt}")
+                if vals.get(k) != str(v):
+                    report.violation(f"emission:value-differs:{tgt}:wide-operands", {"type": T, "source": computed[n], "env": dict(zip("xyz", env)), "reference": v, "got": vals.get(k), "seed": seed},
+                                     f"generated {tgt} does not compute the exact value although operands, intermediates and result are in the range of {T}")
 
 
 def _has_pow(e):
